@@ -190,7 +190,8 @@ def main(argv: t.Optional[t.List[str]] = None) -> int:
         if not args.no_shrink and shrunk < 6:
             cap = 45.0 if args.tier == "quick" else 240.0
             try:
-                case = engine.shrink_bucket(prop_id, pname, args.tier, sseed, key, case, cap)
+                case, d2 = engine.shrink_bucket(prop_id, pname, args.tier, sseed, key, case, cap)
+                detail = d2 or detail
             except BaseException:
                 traceback.print_exc()
             shrunk += 1
